@@ -102,21 +102,22 @@ pub fn Suspense(props: SuspenseProps) -> View {
                     suspense_scope.until_finished().await;
                     debug_assert!(!suspense_scope.sent.get(), "suspense scope should not yet be sent");
 
-                    // Make sure parent is sent first.
+                    // Make sure parent is sent first. `sent` is only set once the fragment has
+                    // actually been handed to the stream (see `render_to_string_stream`): a child
+                    // that resolves at the same time must not overtake a parent that has been
+                    // woken but not yet streamed.
                     let (tx, rx) = futures::channel::oneshot::channel();
                     let mut tx = Some(tx);
                     create_effect(move || {
-                        if !suspense_scope.sent.get() && suspense_scope.parent.as_ref().map_or(true, |parent| parent.get().sent.get()) {
-                            // Wake this fragment before marking it as sent: setting `sent` runs the
-                            // effects of the child boundaries right away, and fragments are streamed
-                            // in the order in which they are woken.
-                            tx.take().unwrap().send(()).unwrap();
-                            suspense_scope.sent.set(true);
+                        if suspense_scope.parent.as_ref().map_or(true, |parent| parent.get().sent.get()) {
+                            if let Some(tx) = tx.take() {
+                                tx.send(()).unwrap();
+                            }
                         }
                     });
                     rx.await.unwrap();
 
-                    SuspenseFragment::new(key, view! { Show(when=true) { (view) } })
+                    (SuspenseFragment::new(key, view! { Show(when=true) { (view) } }), suspense_scope.sent)
                 }.boxed_local());
 
                 // We need an end marker to know where to replace the fallback value.
@@ -285,7 +286,9 @@ pub(crate) struct SuspenseStream {
     pub futures: std::rc::Rc<
         std::cell::RefCell<
             futures::stream::FuturesUnordered<
-                futures::future::LocalBoxFuture<'static, SuspenseFragment>,
+                // The fragment and the `sent` signal of its suspense scope, which the stream sets
+                // once the fragment has been sent.
+                futures::future::LocalBoxFuture<'static, (SuspenseFragment, Signal<bool>)>,
             >,
         >,
     >,
